@@ -415,7 +415,12 @@ def _cuckoo(case, ctx, d):
         ctx.check("C05.observe", got == want, lambda: f"{K.__name__} -> {name}: observations differ: {got} != {want}")
         copies.append((name, g))
         ctx.feat("loader_%s_%s" % (K.__name__, name))
-    for ki, n, rem in case["suffix"]:
+    wide = bits is not None and bits > 32
+    if wide:
+        # beyond 32 bits the format has no room: a LOADED table (4-byte slots) cannot take a further fingerprint that does not fit,
+        # the original (Python lists) can - further operations are outside what the round trip promises there
+        ctx.feat("cuckoo_wide_fingerprints_no_further_operations")
+    for ki, n, rem in ([] if wide else case["suffix"]):
         k = probes[ki % len(probes)]
         outs = []
         for name, x in [("orig", o)] + copies:
